@@ -280,10 +280,18 @@ type caseWriter struct {
 	n, inShard                  int
 	first                       bool
 	info                        *streamInfo
+	dry                         bool
 }
+
+// dryCases: the generators are run for their side observations only (effect snapshots, instance
+// reuse): no case file is written and no stream is registered
+var dryCases = false
 
 func newCaseWriter(dir, stream, header, footer, rule string, exhaustive bool, shardSize int) *caseWriter {
 	si := &streamInfo{Name: stream, Rule: rule, Exhaustive: exhaustive}
+	if dryCases {
+		return &caseWriter{dir: dir, stream: stream, header: header, footer: footer, shardSize: shardSize, info: si, dry: true}
+	}
 	meta.Streams = append(meta.Streams, si)
 	return &caseWriter{dir: dir, stream: stream, header: header, footer: footer, shardSize: shardSize, info: si}
 }
@@ -310,6 +318,10 @@ func (cw *caseWriter) close() {
 
 // write one case (a Gallina term on a single line)
 func (cw *caseWriter) write(term string) {
+	if cw.dry {
+		cw.n++
+		return
+	}
 	if cw.w == nil {
 		cw.open()
 	}
